@@ -1094,7 +1094,7 @@ def _split_indentifier_parts_on_case(indentifier:str) -> List[str]:
         # We use \u200b as temp token to hack a split that passes the tests.
         return text.replace(sep, '\u200b'+sep).split('\u200b')
 
-    match = re.match('(_{1,2})?(.*?)(_{1,2})?$', indentifier)
+    match = re.match('(_{1,2})?(.*?)(_{1,2})?$', indentifier, re.DOTALL)
     assert match is not None # the regex always matches
     prefix, text, suffix = match.groups(default='')
     text_parts = []
